@@ -6,15 +6,6 @@ namespace SqVerif.Gen.Defaults
 def defaults : List (String × String) :=
   [("_read_user", "true"), ("max_qubits", "20"), ("max_registers", "1000"), ("conn_retry_time", "0.5"), ("recv_timeout", "100"), ("recv_retry_time", "0.1"), ("log_level", "30"), ("sim_backend", "\"stabilizer\""), ("network_config_file", "\"<config_folder>/network.json\""), ("noisy_qubits", "false"), ("t1", "1.0")]
 
-/-- properties of the settings class that have a setter -/
-def setters : List String := ["_read_user", "sim_backend", "max_qubits", "max_registers", "conn_retry_time", "recv_timeout", "recv_retry_time", "log_level", "network_config_file", "noisy_qubits", "t1"]
-
-/-- what the `self._config.update(..)` calls of `update_settings` lay over the memory, in source order -/
-def layers : List String := ["_default_config", "_internal_settings_file", "_user_settings_file"]
-
-/-- does the method call `self._write()` -/
-def writers : List (String × Bool) := [("_set_setting", true), ("default_settings", true)]
-
 /-- constructs the translator did not understand (must be empty) -/
 def untranslated : List String := []
 
